@@ -239,6 +239,20 @@ def work_fac_wp(chunk):
                 elif not monotone(keys):
                     col.violation(viol("C11:sort_workplace_list-wrong-order:%s" % mode, {"mode": mode, "input(capacity, placed, target skill)": combo, "result_keys": keys}))
                 col.transitions.add(hash((kind, mode, combo, tuple(w.ID for w in res))))
+                if mode == "FSS" and any(used for _, used, _ in combo):
+                    # the placed parts are measured again after the first look (every other workplace's parts turn out half / twice as bulky) and the list is sorted again
+                    for i, w in enumerate(wps):
+                        for c in w.placed_component_list:
+                            c.space_size = 0.25 if i % 2 == 0 else 1.0
+                    col.checks["c11.sort_workplace_list-after-remeasuring"] += 1
+                    try:
+                        res = sort_workplace_list(list(wps), S.WP_RULES[mode], name="T")
+                    except Exception as e:
+                        col.violation(viol("C11:sort_workplace_list-raised:%s:%s" % (mode, type(e).__name__), {"mode": mode, "input": combo, "error": repr(e), "remeasured": True}))
+                        continue
+                    keys = [-(w.max_space_size - sum(c.space_size for c in w.placed_component_list)) for w in res]
+                    if not is_perm(wps, res) or not monotone(keys):
+                        col.violation(viol("C11:sort_workplace_list-wrong-order-after-parts-were-remeasured:%s" % mode, {"mode": mode, "input(capacity, placed, target skill)": combo, "result_keys": keys}))
             # several machines of one kind carry the same name (worker licences are keyed by the machine's name): 1, 2 or 4 "lathe"s per workplace, plus a differently named machine
             alpha2 = [(nf, ts, other) for nf in (1, 2, 4) for ts in (0.0, 1.0, 2.5) for other in (0.0, 1.5)]
             for combo in itertools.product(alpha2, repeat=min(n, 3)):
